@@ -166,4 +166,8 @@ pub fn guarded<F: FnOnce() -> String + std::panic::UnwindSafe>(f: F) -> String {
 pub mod act;
 pub mod c03;
 pub mod c05;
+pub mod c06;
 pub mod c13;
+pub mod c27;
+pub mod c32;
+pub mod c04;
